@@ -511,6 +511,13 @@ def check_nonblocking_inventory(ctx):
         ctx.sites(b, R.call("Sender::send"), inst, floor=1)
 
 
+def check_journal_validity(ctx):
+    """the intent journal of a multi-record batch lists back-to-back extents: recovery must accept such an image, or the torn
+    writes it covers are never repaired and the strict scan refuses the whole file (shared with C03.journal-validity)"""
+    from rules import C03
+    C03.check_journal_validity(ctx, "C02.journal-validity", None)
+
+
 def check_retirement_wait(ctx):
     """flush() must not acknowledge while another flusher still holds retirements it took from the queue (their markers are
     not durable yet): flush_pending_deletions looks at the queue only after it has taken the pass mutex
@@ -784,5 +791,6 @@ def check(ctx):
     check_successor(ctx)
     check_journal_position(ctx)
     check_retirement_wait(ctx)
+    check_journal_validity(ctx)
     check_nonblocking_inventory(ctx)
     check_drop(ctx)
